@@ -886,9 +886,55 @@ fn c14_leaves(c: &mut Ctx, _b: &Budget) {
     c.end();
 }
 
+/// churn: envelopes are built, compared and dropped, and equivalent envelopes with another pattern of obscured positions are built
+/// right after them (so that the allocator hands out the same addresses again): whatever a comparison remembers about an envelope
+/// it has seen must not be taken for a fact about the next one
+fn c14_churn(c: &mut Ctx, b: &Budget) {
+    c.begin("churn");
+    let cfg = GenCfg::default();
+    let mut scratch = Ctx::new("scratch", c.rng.next());
+    scratch.begin("x");
+    let mut n_pairs = 0u64;
+    for _ in 0..(if b.thorough { 40 } else { 8 }) {
+        let r = gen_env(&mut scratch, &cfg, 2);
+        let e = match scratch.env(&r) { Some(e) => e, None => continue };
+        let plain = e.tagged_cbor().to_cbor_data();
+        // variants with the same digest: each single position elided or compressed, and the whole thing
+        let mut variants: Vec<Vec<u8>> = vec![];
+        for (_, x) in elements(&e).into_iter().skip(1).take(6) {
+            let mut t = HashSet::new(); t.insert(x.digest().into_owned());
+            variants.push(e.elide_removing_set(&t).tagged_cbor().to_cbor_data());
+            variants.push(e.elide_removing_set_with_action(&t, &ObscureAction::Compress).tagged_cbor().to_cbor_data());
+        }
+        variants.push(e.elide().tagged_cbor().to_cbor_data());
+        variants.retain(|v| *v != plain);
+        let reference = Envelope::try_from_cbor_data(plain.clone()).unwrap();
+        for round in 0..(if b.thorough { 60 } else { 25 }) {
+            for v in &variants {
+                {   // the plain form: built, compared (so that anything memoised is memoised), dropped
+                    let x = Envelope::try_from_cbor_data(plain.clone()).unwrap();
+                    let same = x.is_identical_to(&reference) && x == reference && x.structural_digest() == reference.structural_digest();
+                    c.check("decode-preserves-identity", same, "decode-preserves-identity", || "a fresh copy is not identical to the reference".into());
+                }
+                let y = Envelope::try_from_cbor_data(v.clone()).unwrap();
+                let ok = y.is_equivalent_to(&reference) && !y.is_identical_to(&reference) && y != reference && !reference.is_identical_to(&y) && y.structural_digest() != reference.structural_digest();
+                c.check("obscuring-changes-identity", ok, "obscured-equivalent-not-identical", || format!("round {}: {} built right after a dropped copy of {} is reported {}", round, shape(&y), shape(&reference), if y.is_equivalent_to(&reference) { "identical" } else { "not equivalent" }));
+                // and the other way round: the variant first, then the plain form at its address
+                drop(y);
+                let z = Envelope::try_from_cbor_data(plain.clone()).unwrap();
+                c.check("decode-preserves-identity", z.is_identical_to(&reference), "decode-preserves-identity", || format!("round {}: a fresh plain copy built right after a dropped variant is not identical to the reference", round));
+                n_pairs += 1;
+            }
+        }
+    }
+    c.count_n("churn-pairs", n_pairs);
+    c.end();
+}
+
 /// C14 - equivalence and identity
 pub fn c14(c: &mut Ctx, b: &Budget) {
     let cfg = GenCfg::default();
+    c14_churn(c, b);
     c14_deep(c, b);
     c14_leaves(c, b);
     for sc in 0..b.scenarios {
